@@ -26,13 +26,53 @@ theorem fmtBin4 (j : Nat) (hj : j < 16) :
 theorem sum_zero_list {α : Type} (l : List α) : (l.map fun _ => (0 : R)).sum = 0 := by
   induction l with
   | nil => rfl
-  | cons a l ih => simp [ih]
+  | cons a l ih => simp
+
+/-! ### from triplets to the new state -/
+
+/-- if every pass of the inner loop yields the pure triplet `trip i j`, all indices are in range and the
+row sums are the values of `φ`, then `create_sparse(...).dot(psi)` is the flat list of `φ` -/
+theorem sparse_assemble (N : Nat) (item : Item (M2 R) (M4 R)) (qn qu : List Nat)
+    (hlen : qn.length + qu.length = N) (trip : Nat → Nat → Nat × Nat × R)
+    (htrip : ∀ i, i < 2 ^ qn.length → ∀ j, j < 2 ^ (2 * qu.length) →
+      sparseTriplet (regEntries R) item qn qu N qn.length qu.length i j = .ok (trip i j))
+    (hrange : ∀ i j, (trip i j).1 < 2 ^ N ∧ (trip i j).2.1 < 2 ^ N)
+    (psi : List R) (hpsi : psi.length = 2 ^ N) (φ : State R N)
+    (hsum : ∀ x0 : BV N, ((List.range (2 ^ qn.length)).map fun i => ((List.range (2 ^ (2 * qu.length))).map fun j =>
+        if (trip i j).1 = idx x0 then (trip i j).2.2 * psi.getD (trip i j).2.1 0 else 0).sum).sum = φ x0) :
+    (match createSparse (regEntries R) item qn qu N with
+      | Except.error e => Except.error e
+      | Except.ok T => spmv (semiringScalar R) (2 ^ N) T psi) = Except.ok (listOf φ) := by
+  rw [createSparse_ok (regEntries R) item qn qu N hlen trip htrip]
+  obtain ⟨out, h1, h2, h3⟩ := spmv_spec (2 ^ N)
+    ((List.range (2 ^ qn.length)).map fun i => (List.range (2 ^ (2 * qu.length))).map (trip i)).flatten psi hpsi
+    (by
+      intro t ht
+      obtain ⟨l, hl, htl⟩ := List.mem_flatten.mp ht
+      obtain ⟨i, _, rfl⟩ := List.mem_map.mp hl
+      obtain ⟨j, _, rfl⟩ := List.mem_map.mp htl
+      exact hrange i j)
+  simp only [h1]
+  congr 1
+  apply List.ext_getElem?
+  intro r
+  by_cases hr : r < 2 ^ N
+  · rw [h3 r hr, listOf_getElem? _ _ hr, sum_map_flatten]
+    congr 1
+    rw [← hsum (bitsFn N r), idx_bitsFn N r hr, List.map_map]
+    congr 1
+    apply List.map_congr_left
+    intro i _
+    simp only [Function.comp, List.map_map]
+    rfl
+  · rw [List.getElem?_eq_none (by omega), List.getElem?_eq_none (by rw [listOf_length]; omega)]
 
 /-! ### a one-qubit item, at least one idle qubit (`create_sparse`) -/
 
 section one
 variable (N q : Nat) (hq : q < N)
 
+include hq in
 theorem sparseTriplet_one (g : M2 R) (i : Nat) (hi : i < 2 ^ (N - 1)) (j : Nat) (hj : j < 4) :
     sparseTriplet (regEntries R) (Item.one g q) ((List.range N).erase q) [q] N (N - 1) 1 i j =
       .ok (idx (P N ((List.range N).erase q) (bitsBE (N - 1) i) [q] [j.testBit 1]),
@@ -70,10 +110,10 @@ theorem row_sum_one (g : M2 R) (ψ : State R N) (x0 : BV N) :
         if idx (P N ((List.range N).erase q) (bitsBE (N - 1) i) [q] [j.testBit 1]) = idx x0
         then g (j.testBit 1) (j.testBit 0) * ψ (P N ((List.range N).erase q) (bitsBE (N - 1) i) [q] [j.testBit 0])
         else 0).sum).sum = E1 g ⟨q, hq⟩ ψ x0 := by
-  set u0 := ((List.range N).erase q).map (bitAt x0) with hu0
-  set G : R := ((List.range 4).map fun j =>
-      if j.testBit 1 = x0 ⟨q, hq⟩ then g (x0 ⟨q, hq⟩) (j.testBit 0) * ψ (upd x0 ⟨q, hq⟩ (j.testBit 0)) else 0).sum
-    with hG
+  obtain ⟨u0, hu0⟩ : ∃ u0, u0 = ((List.range N).erase q).map (bitAt x0) := ⟨_, rfl⟩
+  obtain ⟨G, hG⟩ : ∃ G : R, G = ((List.range 4).map fun j =>
+      if j.testBit 1 = x0 ⟨q, hq⟩ then g (x0 ⟨q, hq⟩) (j.testBit 0) * ψ (upd x0 ⟨q, hq⟩ (j.testBit 0)) else 0).sum :=
+    ⟨_, rfl⟩
   have hinner : ∀ i, ((List.range 4).map fun j =>
         if idx (P N ((List.range N).erase q) (bitsBE (N - 1) i) [q] [j.testBit 1]) = idx x0
         then g (j.testBit 1) (j.testBit 0) * ψ (P N ((List.range N).erase q) (bitsBE (N - 1) i) [q] [j.testBit 0])
@@ -84,10 +124,11 @@ theorem row_sum_one (g : M2 R) (ψ : State R N) (x0 : BV N) :
       congr 1
       apply List.map_congr_left
       intro j _
-      simp only [cond_one N q hq _ (bitsBE_length _ _), ← hu0, hc, true_and]
+      have hcond := cond_one N q hq (bitsBE (N - 1) i) (bitsBE_length _ _) (j.testBit 1) x0
+      rw [← hu0] at hcond
       by_cases hj : j.testBit 1 = x0 ⟨q, hq⟩
-      · rw [if_pos hj, if_pos hj, hj, hu0, P_one_upd N q hq]
-      · rw [if_neg hj, if_neg hj]
+      · rw [if_pos (hcond.mpr ⟨hc, hj⟩), if_pos hj, hj, hc, hu0, P_one_upd N q hq]
+      · rw [if_neg (fun h => hj (hcond.mp h).2), if_neg hj]
     · rw [if_neg hc]
       have : ((List.range 4).map fun j =>
           if idx (P N ((List.range N).erase q) (bitsBE (N - 1) i) [q] [j.testBit 1]) = idx x0
@@ -96,7 +137,7 @@ theorem row_sum_one (g : M2 R) (ψ : State R N) (x0 : BV N) :
         apply List.map_congr_left
         intro j _
         rw [if_neg]
-        rw [cond_one N q hq _ (bitsBE_length _ _)]
+        rw [cond_one N q hq _ (bitsBE_length _ _), ← hu0]
         exact fun h => hc h.1
       rw [this, sum_zero_list]
   simp only [hinner]
@@ -104,6 +145,263 @@ theorem row_sum_one (g : M2 R) (ψ : State R N) (x0 : BV N) :
   simp only [E1, Fintype.sum_bool, List.map_cons, List.map_nil, List.sum_cons, List.sum_nil]
   cases hx : x0 ⟨q, hq⟩ <;> simp [Nat.testBit] <;> ring
 
+/-- one pass of `for item in mp_list_opt` for a one-qubit item when at least one qubit is idle -/
+theorem applyItem_one_sparse (hN : 2 ≤ N) (g : M2 R) (psi : List R) (hpsi : psi.length = 2 ^ N) :
+    applyItem (semiringScalar R) (regEntries R) N psi (Item.one g q) =
+      .ok (listOf (E1 g ⟨q, hq⟩ (vecOf psi))) := by
+  have sp := split_one N q hq
+  have hk : ((List.range N).erase q).length ≠ 0 := by rw [sp.hqn]; omega
+  unfold applyItem
+  simp only [removeE_range N q hq, hk, if_false]
+  apply sparse_assemble N (Item.one g q) ((List.range N).erase q) [q] (by rw [sp.hqn]; simp; omega)
+    (fun i j => (idx (P N ((List.range N).erase q) (bitsBE (N - 1) i) [q] [j.testBit 1]),
+           idx (P N ((List.range N).erase q) (bitsBE (N - 1) i) [q] [j.testBit 0]),
+           g (j.testBit 1) (j.testBit 0)))
+  · intro i hi j hj
+    rw [sp.hqn] at hi ⊢
+    exact sparseTriplet_one N q hq g i hi j (by simpa using hj)
+  · intro i j; exact ⟨idx_lt _, idx_lt _⟩
+  · exact hpsi
+  · intro x0
+    rw [sp.hqn]
+    exact row_sum_one N q hq g (vecOf psi) x0
+
 end one
+
+/-! ### a two-qubit item, at least one idle qubit (`create_sparse`) -/
+
+section two
+variable (N a b : Nat) (ha : a < N) (hb : b < N) (hab : a ≠ b)
+
+include ha hb hab in
+theorem sparseTriplet_two (g : M4 R) (i : Nat) (hi : i < 2 ^ (N - 2)) (j : Nat) (hj : j < 16) :
+    sparseTriplet (regEntries R) (Item.two g a b) (((List.range N).erase a).erase b) [a, b] N (N - 2) 2 i j =
+      .ok (idx (P N (((List.range N).erase a).erase b) (bitsBE (N - 2) i) [a, b] [j.testBit 3, j.testBit 2]),
+           idx (P N (((List.range N).erase a).erase b) (bitsBE (N - 2) i) [a, b] [j.testBit 1, j.testBit 0]),
+           g (j.testBit 3, j.testBit 2) (j.testBit 1, j.testBit 0)) := by
+  have sp := split_two N a b ha hb hab
+  obtain ⟨s, h1, h2, h3, h4⟩ := joinStr_halves sp (bitsBE (N - 2) i) [j.testBit 3, j.testBit 2]
+    [j.testBit 1, j.testBit 0] (bitsBE_length _ _) rfl rfl
+  unfold sparseTriplet
+  simp only [fmtBin_double (N - 2) i hi, show 2 * 2 = 4 from rfl, fmtBin4 j hj, h1, h2, h3]
+  have e1 := (h4 a ha).1
+  have e2 := (h4 a ha).2
+  have e3 := (h4 b hb).1
+  have e4 := (h4 b hb).2
+  have hba : b ≠ a := fun h => hab h.symm
+  have hidx : List.idxOf b [a, b] = 1 := by
+    rw [List.idxOf_cons_ne _ (by simpa using hab)]; simp
+  simp only [place, List.mem_cons, true_or, or_true, List.not_mem_nil, or_false, if_true,
+    List.idxOf_cons_self, List.getD_cons_zero, hidx, List.getD_cons_succ] at e1 e2 e3 e4
+  simp only [entryOf, getE_of_getElem? _ _ _ e1, getE_of_getElem? _ _ _ e2, getE_of_getElem? _ _ _ e3,
+    getE_of_getElem? _ _ _ e4, regEntries]
+
+include hab in
+theorem cond_two (u : List Bool) (hu : u.length = N - 2) (c1 c2 : Bool) (x0 : BV N) :
+    idx (P N (((List.range N).erase a).erase b) u [a, b] [c1, c2]) = idx x0 ↔
+      u = (((List.range N).erase a).erase b).map (bitAt x0) ∧ c1 = x0 ⟨a, ha⟩ ∧ c2 = x0 ⟨b, hb⟩ := by
+  rw [idx_inj, P_eq_iff (split_two N a b ha hb hab) u [c1, c2] hu rfl x0]
+  simp [bitAt, ha, hb]
+
+include hab in
+theorem P_two_upd (d1 d2 : Bool) (x0 : BV N) :
+    P N (((List.range N).erase a).erase b) ((((List.range N).erase a).erase b).map (bitAt x0)) [a, b] [d1, d2] =
+      upd (upd x0 ⟨a, ha⟩ d1) ⟨b, hb⟩ d2 := by
+  funext p
+  rw [P_restrict (split_two N a b ha hb hab)]
+  by_cases hpb : p.val = b
+  · have : p = ⟨b, hb⟩ := Fin.ext hpb
+    subst this
+    have hidx : List.idxOf b [a, b] = 1 := by
+      rw [List.idxOf_cons_ne _ (by simpa using hab)]; simp
+    simp [upd_same, hidx]
+  · have hpb' : p ≠ ⟨b, hb⟩ := fun h => hpb (by rw [h])
+    rw [upd_other _ _ _ _ hpb']
+    by_cases hpa : p.val = a
+    · have : p = ⟨a, ha⟩ := Fin.ext hpa
+      subst this
+      simp [upd_same]
+    · have hpa' : p ≠ ⟨a, ha⟩ := fun h => hpa (by rw [h])
+      simp [hpa, hpb, upd_other _ _ _ _ hpa']
+
+include hab in
+theorem row_sum_two (g : M4 R) (ψ : State R N) (x0 : BV N) :
+    ((List.range (2 ^ (N - 2))).map fun i => ((List.range 16).map fun j =>
+        if idx (P N (((List.range N).erase a).erase b) (bitsBE (N - 2) i) [a, b] [j.testBit 3, j.testBit 2]) = idx x0
+        then g (j.testBit 3, j.testBit 2) (j.testBit 1, j.testBit 0) *
+          ψ (P N (((List.range N).erase a).erase b) (bitsBE (N - 2) i) [a, b] [j.testBit 1, j.testBit 0])
+        else 0).sum).sum = E2 g ⟨a, ha⟩ ⟨b, hb⟩ ψ x0 := by
+  obtain ⟨u0, hu0⟩ : ∃ u0, u0 = (((List.range N).erase a).erase b).map (bitAt x0) := ⟨_, rfl⟩
+  obtain ⟨G, hG⟩ : ∃ G : R, G = ((List.range 16).map fun j =>
+      if j.testBit 3 = x0 ⟨a, ha⟩ ∧ j.testBit 2 = x0 ⟨b, hb⟩
+      then g (x0 ⟨a, ha⟩, x0 ⟨b, hb⟩) (j.testBit 1, j.testBit 0) *
+        ψ (upd (upd x0 ⟨a, ha⟩ (j.testBit 1)) ⟨b, hb⟩ (j.testBit 0)) else 0).sum :=
+    ⟨_, rfl⟩
+  have hinner : ∀ i, ((List.range 16).map fun j =>
+        if idx (P N (((List.range N).erase a).erase b) (bitsBE (N - 2) i) [a, b] [j.testBit 3, j.testBit 2]) = idx x0
+        then g (j.testBit 3, j.testBit 2) (j.testBit 1, j.testBit 0) *
+          ψ (P N (((List.range N).erase a).erase b) (bitsBE (N - 2) i) [a, b] [j.testBit 1, j.testBit 0])
+        else 0).sum = if bitsBE (N - 2) i = u0 then G else 0 := by
+    intro i
+    by_cases hc : bitsBE (N - 2) i = u0
+    · rw [if_pos hc, hG]
+      congr 1
+      apply List.map_congr_left
+      intro j _
+      have hcond := cond_two N a b ha hb hab (bitsBE (N - 2) i) (bitsBE_length _ _) (j.testBit 3) (j.testBit 2) x0
+      rw [← hu0] at hcond
+      by_cases hj : j.testBit 3 = x0 ⟨a, ha⟩ ∧ j.testBit 2 = x0 ⟨b, hb⟩
+      · rw [if_pos (hcond.mpr ⟨hc, hj⟩), if_pos hj, hj.1, hj.2, hc, hu0, P_two_upd N a b ha hb hab]
+      · rw [if_neg (fun h => hj (hcond.mp h).2), if_neg hj]
+    · rw [if_neg hc]
+      have : ((List.range 16).map fun j =>
+          if idx (P N (((List.range N).erase a).erase b) (bitsBE (N - 2) i) [a, b] [j.testBit 3, j.testBit 2]) = idx x0
+          then g (j.testBit 3, j.testBit 2) (j.testBit 1, j.testBit 0) *
+            ψ (P N (((List.range N).erase a).erase b) (bitsBE (N - 2) i) [a, b] [j.testBit 1, j.testBit 0])
+          else 0) = (List.range 16).map fun _ => (0 : R) := by
+        apply List.map_congr_left
+        intro j _
+        rw [if_neg]
+        rw [cond_two N a b ha hb hab _ (bitsBE_length _ _), ← hu0]
+        exact fun h => hc h.1
+      rw [this, sum_zero_list]
+  simp only [hinner]
+  rw [sum_bits_single (N - 2) u0 (by simp [hu0, (split_two N a b ha hb hab).hqn]) G, hG, range16]
+  simp only [E2, Fintype.sum_prod_type, Fintype.sum_bool, List.map_cons, List.map_nil, List.sum_cons, List.sum_nil]
+  cases hx : x0 ⟨a, ha⟩ <;> cases hy : x0 ⟨b, hb⟩ <;> simp [Nat.testBit] <;> ring
+
+include hab in
+/-- one pass of `for item in mp_list_opt` for a two-qubit item when at least one qubit is idle -/
+theorem applyItem_two_sparse (hN : 3 ≤ N) (g : M4 R) (psi : List R) (hpsi : psi.length = 2 ^ N) :
+    applyItem (semiringScalar R) (regEntries R) N psi (Item.two g a b) =
+      .ok (listOf (E2 g ⟨a, ha⟩ ⟨b, hb⟩ (vecOf psi))) := by
+  have sp := split_two N a b ha hb hab
+  have hk : (((List.range N).erase a).erase b).length ≠ 0 := by rw [sp.hqn]; omega
+  have hmemb : b ∈ (List.range N).erase a :=
+    (List.Nodup.mem_erase_iff List.nodup_range).mpr ⟨fun h => hab h.symm, List.mem_range.mpr hb⟩
+  unfold applyItem
+  simp only [removeE_range N a ha, removeE_mem b _ hmemb, hk, if_false]
+  apply sparse_assemble N (Item.two g a b) (((List.range N).erase a).erase b) [a, b]
+    (by rw [sp.hqn]; simp; omega)
+    (fun i j => (idx (P N (((List.range N).erase a).erase b) (bitsBE (N - 2) i) [a, b] [j.testBit 3, j.testBit 2]),
+           idx (P N (((List.range N).erase a).erase b) (bitsBE (N - 2) i) [a, b] [j.testBit 1, j.testBit 0]),
+           g (j.testBit 3, j.testBit 2) (j.testBit 1, j.testBit 0)))
+  · intro i hi j hj
+    rw [sp.hqn] at hi ⊢
+    exact sparseTriplet_two N a b ha hb hab g i hi j (by simpa using hj)
+  · intro i j; exact ⟨idx_lt _, idx_lt _⟩
+  · exact hpsi
+  · intro x0
+    rw [sp.hqn]
+    exact row_sum_two N a b ha hb hab g (vecOf psi) x0
+
+end two
+
+/-! ### no idle qubit (`create_dense`): a one-qubit register, a two-qubit gate on a two-qubit register -/
+
+theorem bv1_ext (z z' : BV 1) (h : z 0 = z' 0) : z = z' := by
+  funext p
+  have : p = 0 := Subsingleton.elim _ _
+  rw [this, h]
+
+theorem upd1 (z : BV 1) (b : Bool) : upd z 0 b = bitsFn 1 b.toNat := by
+  apply bv1_ext
+  rw [upd_same]
+  cases b <;> simp [bitsFn]
+
+theorem bv2_ext (z z' : BV 2) (h0 : z 0 = z' 0) (h1 : z 1 = z' 1) : z = z' := by
+  funext p
+  fin_cases p
+  · exact h0
+  · exact h1
+
+theorem upd2_01 (z : BV 2) (c d : Bool) : upd (upd z 0 c) 1 d = bitsFn 2 (2 * c.toNat + d.toNat) := by
+  apply bv2_ext
+  · rw [upd_other _ _ _ _ (by decide), upd_same]
+    cases c <;> cases d <;> decide
+  · rw [upd_same]
+    cases c <;> cases d <;> decide
+
+theorem upd2_10 (z : BV 2) (c d : Bool) : upd (upd z 1 c) 0 d = bitsFn 2 (c.toNat + 2 * d.toNat) := by
+  apply bv2_ext
+  · rw [upd_same]
+    cases c <;> cases d <;> decide
+  · rw [upd_other _ _ _ _ (by decide), upd_same]
+    cases c <;> cases d <;> decide
+
+theorem vecOf_bitsFn (N : Nat) (psi : List R) (i : Nat) (hi : i < 2 ^ N) :
+    (vecOf psi : State R N) (bitsFn N i) = psi.getD i 0 := by
+  simp [vecOf, idx_bitsFn N i hi]
+
+theorem applyItem_one_dense (g : M2 R) (psi : List R) (hpsi : psi.length = 2 ^ 1) :
+    applyItem (semiringScalar R) (regEntries R) 1 psi (Item.one g 0) =
+      .ok (listOf (E1 g (0 : Fin 1) (vecOf psi))) := by
+  obtain ⟨x, y, rfl⟩ : ∃ x y, psi = [x, y] := by
+    match psi, hpsi with
+    | [x, y], _ => exact ⟨x, y, rfl⟩
+  have hr1 : List.range 1 = [0] := rfl
+  have hr2 : List.range (2 ^ 1) = [0, 1] := rfl
+  have f0 : fmtBin 1 0 = [false] := by decide
+  have f1 : fmtBin 1 1 = [true] := by decide
+  have b0 : bitsFn 1 0 (0 : Fin 1) = false := by simp [bitsFn]
+  have b1 : bitsFn 1 1 (0 : Fin 1) = true := by simp [bitsFn]
+  simp only [applyItem, hr1, removeE, if_true, List.length_nil, createDense, List.length_cons, hr2, mapE, entryOf,
+    f0, f1, getE, List.cons_append, List.nil_append, List.getElem?_cons_zero, List.getElem?_cons_succ,
+    Nat.zero_add, matVec, dot, semiringScalar, regEntries, ne_eq, not_true_eq_false, if_false, List.map_cons,
+    List.map_nil, listOf, E1, Fintype.sum_bool, upd1, b0, b1, Bool.toNat_true, Bool.toNat_false,
+    vecOf_bitsFn 1 [x, y] 0 (by norm_num), vecOf_bitsFn 1 [x, y] 1 (by norm_num)]
+  simp only [List.getD_cons_zero, List.getD_cons_succ]
+  congr 1
+  simp only [List.cons.injEq, and_true]
+  constructor <;> ring
+
+theorem applyItem_two_dense (g : M4 R) (a b : Fin 2) (hab : a ≠ b) (psi : List R) (hpsi : psi.length = 2 ^ 2) :
+    applyItem (semiringScalar R) (regEntries R) 2 psi (Item.two g a.val b.val) =
+      .ok (listOf (E2 g a b (vecOf psi))) := by
+  obtain ⟨x, y, z, w, rfl⟩ : ∃ x y z w, psi = [x, y, z, w] := by
+    match psi, hpsi with
+    | [x, y, z, w], _ => exact ⟨x, y, z, w, rfl⟩
+  have hr1 : List.range 2 = [0, 1] := rfl
+  have hr2 : List.range (2 ^ 2) = [0, 1, 2, 3] := rfl
+  have f0 : fmtBin 2 0 = [false, false] := by decide
+  have f1 : fmtBin 2 1 = [false, true] := by decide
+  have f2 : fmtBin 2 2 = [true, false] := by decide
+  have f3 : fmtBin 2 3 = [true, true] := by decide
+  have b00 : bitsFn 2 0 (0 : Fin 2) = false := by decide
+  have b01 : bitsFn 2 0 (1 : Fin 2) = false := by decide
+  have b10 : bitsFn 2 1 (0 : Fin 2) = false := by decide
+  have b11 : bitsFn 2 1 (1 : Fin 2) = true := by decide
+  have b20 : bitsFn 2 2 (0 : Fin 2) = true := by decide
+  have b21 : bitsFn 2 2 (1 : Fin 2) = false := by decide
+  have b30 : bitsFn 2 3 (0 : Fin 2) = true := by decide
+  have b31 : bitsFn 2 3 (1 : Fin 2) = true := by decide
+  have v0 := vecOf_bitsFn 2 [x, y, z, w] 0 (by norm_num)
+  have v1 := vecOf_bitsFn 2 [x, y, z, w] 1 (by norm_num)
+  have v2 := vecOf_bitsFn 2 [x, y, z, w] 2 (by norm_num)
+  have v3 := vecOf_bitsFn 2 [x, y, z, w] 3 (by norm_num)
+  simp only [List.getD_cons_zero, List.getD_cons_succ] at v0 v1 v2 v3
+  fin_cases a <;> fin_cases b
+  · exact absurd rfl hab
+  · -- (0, 1)
+    simp only [Fin.zero_eta, Fin.mk_one, Fin.isValue, applyItem, hr1, removeE, if_true,
+      one_ne_zero, if_false, List.length_nil, createDense, List.length_cons, hr2, mapE, entryOf, f0, f1, f2, f3, getE,
+      List.cons_append, List.nil_append, List.getElem?_cons_zero, List.getElem?_cons_succ, Nat.zero_add,
+      Nat.reduceAdd, matVec, dot, semiringScalar, regEntries, ne_eq, not_true_eq_false, List.map_cons, List.map_nil,
+      listOf, E2, Fintype.sum_prod_type, Fintype.sum_bool, upd2_01, b00, b01, b10, b11, b20, b21, b30, b31,
+      Bool.toNat_true, Bool.toNat_false, Nat.mul_one, Nat.mul_zero, v0, v1, v2, v3]
+    congr 1
+    simp only [List.cons.injEq, and_true]
+    refine ⟨?_, ?_, ?_, ?_⟩ <;> ring
+  · -- (1, 0)
+    simp only [Fin.zero_eta, Fin.mk_one, Fin.isValue, applyItem, hr1, removeE, if_true,
+      zero_ne_one, if_false, List.length_nil, createDense, List.length_cons, hr2, mapE, entryOf, f0, f1,
+      f2, f3, getE, List.cons_append, List.nil_append, List.getElem?_cons_zero, List.getElem?_cons_succ,
+      Nat.zero_add, Nat.reduceAdd, matVec, dot, semiringScalar, regEntries, ne_eq, not_true_eq_false, List.map_cons,
+      List.map_nil, listOf, E2, Fintype.sum_prod_type, Fintype.sum_bool, upd2_10, b00, b01, b10, b11, b20, b21,
+      b30, b31, Bool.toNat_true, Bool.toNat_false, Nat.mul_one, Nat.mul_zero, v0, v1, v2, v3]
+    congr 1
+    simp only [List.cons.injEq, and_true]
+    refine ⟨?_, ?_, ?_, ?_⟩ <;> ring
+  · exact absurd rfl hab
 
 end QG.Lemmas.Binary
